@@ -84,6 +84,7 @@ class Tensor(_Arr):
 
     def _view(self, shape, strides, offset):
         r = Tensor(self._storage, shape, strides, offset, self.dtype, self.kind)
+        r._isview = True
         # views of graph tensors are not tracked by the autograd model; torchjd never differentiates through them
         return r
 
